@@ -14,7 +14,7 @@ package kfake
 // recalculateLSO: the last stable offset becomes the smallest first offset of an open transaction, capped at the
 // high watermark; the high watermark itself when none is open.
 //@ func (pd *partData) recalculateLSO()
-//@   prop C32
+//@   prop C32 C05
 //@   nopanic
 //@   modifies pd.lastStableOffset
 //@   ensures [never-above-hwm] pd.lastStableOffset <= pd.highWatermark
@@ -63,3 +63,11 @@ package kfake
 //@   site store nbytes#1 assert [open-at-or-before-this-batch] inTx ==> pd.uncommittedPIDs[b.ProducerID] <= old(pd.highWatermark)
 //@   site store nbytes#1 assert [returns-the-first-offset] firstOffset == old(pd.highWatermark)
 //@   site store nbytes#1 assert [lso-unchanged-while-open] old(len(pd.uncommittedPIDs)) > 0 ==> pd.lastStableOffset == old(pd.lastStableOffset)
+
+// ---- C05 / C32: a read_committed fetch never returns a batch at or beyond the last stable offset ----
+// In handleFetch, at the single place where a stored batch is read for the response: under read_committed the
+// batch's first offset is below the partition's last stable offset (which, by the log-bounds invariant above, is
+// at or below the first offset of every open transaction).
+//@ func (c *Cluster) handleFetch(creq *clientReq, w *watchFetch) (resp kmsg.Response, err error)
+//@   prop C05 C32
+//@   site call readBatchRaw#0 assert [read-committed-stays-below-lso] readCommitted ==> m.firstOffset < pd.lastStableOffset
